@@ -37,7 +37,7 @@ MANIFEST = {
 
 def run(run):
     run.explanation = EXPLANATION
-    for r, n in (("C20.R1", 3), ("C20.R2", 3), ("C20.R3", 4), ("C20.R4", 4), ("C20.R5", 1)):
+    for r, n in (("C20.R1", 3), ("C20.R2", 3), ("C20.R3", 4), ("C20.R4", 4), ("C20.R5", 1), ("C20.R6", 1)):
         run.floor(r, n)
     project = run.project
     ev = sym.make_evaluator(project, COLL, [], inline_local=True, no_inline=("_scan_hdus", "_load", "descriptions", "images", "export_simple"))
@@ -47,6 +47,7 @@ def run(run):
     _r4(run)
     paths_at_call_sites(run)
     _r5_shape_agreement(run)
+    _r6_one_item_per_input(run)
 
 
 def _self_calls(t):
@@ -844,3 +845,75 @@ def default_search_predicate(run, f, r, rule="C20.R1"):
             run.holds(rule, f, e.node, "default selection stops at the first HDU with at least two axes (checked for 0..5 axes)")
         done += 1
     return done
+
+
+
+def _r6_one_item_per_input(run, rule="C20.R6"):
+    """The loader hands out exactly one item per scanned input, for descriptions and for images alike: consumers pair the two
+    sequences by position (`zip(collection.images(), descriptions)`), so an input that one view passes over shifts every later
+    image onto its predecessor's geometry and the last input is never dispatched.  Decided on the loop over `_scan_hdus()`:
+    the path conditions of its yields, as a disjunction, must be a tautology (raising is allowed), no yield may sit in an
+    inner loop, and nothing leaves the loop early."""
+    import ast as _ast
+    from sa import boolalg
+    project = run.project
+    q = COLL + ".SimpleFitsCollection._load"
+    if not project.has(q):
+        run.undecided(rule, None, None, "SimpleFitsCollection._load not found (anchor vanished)", kind="anchor", construct="SimpleFitsCollection._load")
+        return
+    f = project.fn(q)
+    run.note_func(f)
+    ev = sym.make_evaluator(project, COLL, [], inline_local=True, no_inline=("_scan_hdus",))
+    ev.self_class = COLL + ".SimpleFitsCollection"
+    r = ev.run(f.node)
+    scan = [(k, it, n) for k, it, n in r.loops if it[0] == "call" and it[1][0] == "attr" and it[1][2] == "_scan_hdus"]
+    if len(scan) != 1:
+        run.undecided(rule, f, None, "_load: %d loops over self._scan_hdus() found" % len(scan), kind="scan-loop")
+        return
+    k, it, lnode = scan[0]
+    ys = [e for e in r.events if e.kind == "yield" and ("loop", k) in [(c[0], c[1]) for c in e.pc if c[0] == "loop"]]
+    if not ys:
+        run.undecided(rule, f, lnode, "_load: no yield inside the loop over the scanned inputs", kind="no-yield")
+        return
+    inner = [e for e in ys if len([c for c in e.pc if c[0] == "loop"]) > 1]
+    if inner:
+        run.undecided(rule, f, inner[0].node, "_load yields inside a nested loop: the number of items per input is not decided", kind="yield-nested")
+        return
+    # early exits of the loop itself
+    def own_exits(loop):
+        out = []
+        def visit(stmts):
+            for st in stmts:
+                if isinstance(st, (_ast.Continue, _ast.Break, _ast.Return)):
+                    out.append(st)
+                elif isinstance(st, (_ast.For, _ast.While)):
+                    for x in _ast.walk(st):
+                        if isinstance(x, _ast.Return):
+                            out.append(x)
+                    visit(st.orelse)
+                elif isinstance(st, (_ast.FunctionDef, _ast.AsyncFunctionDef, _ast.ClassDef)):
+                    continue
+                else:
+                    for field in ("body", "orelse", "finalbody"):
+                        visit(getattr(st, field, []) or [])
+                    for h in getattr(st, "handlers", []) or []:
+                        visit(h.body)
+        visit(loop.body)
+        return out
+    conds = []
+    for e in ys:
+        conds.append(boolalg.conj([c for c in e.pc if c[0] != "loop"]))
+    disj = conds[0] if len(conds) == 1 else ("op", "or", tuple(conds))
+    total = boolalg.equiv(disj, sym.TRUE)
+    exits = own_exits(lnode) if isinstance(lnode, (_ast.For, _ast.While)) else []
+    if total is True and not exits:
+        run.holds(rule, f, ys[0].node, "_load yields exactly one item per scanned input on every normal path (%d yield site(s)), for descriptions and images alike" % len(ys))
+    elif exits or total is False:
+        where = exits[0] if exits else ys[0].node
+        why = ("`%s` at line %d leaves the iteration" % (type(exits[0]).__name__.lower(), exits[0].lineno)) if exits else \
+            "the yield is reached only under %s" % show(disj)[:100]
+        run.violated(rule, f, where, "_load can pass over a scanned input without yielding an item (%s): descriptions() and images() then differ in length / order, and "
+                     "consumers that pair them by position tile every later image with its predecessor's geometry and never dispatch the last one" % why,
+                     kind="input-skipped")
+    else:
+        run.undecided(rule, f, ys[0].node, "_load: cannot show that every scanned input yields an item (condition %s)" % show(disj)[:100], kind="yield-condition")
